@@ -284,13 +284,15 @@ class ResourceMap:
         supermap).
         """
         # Before scrapping everything, update their parent information
-        for handle in self.handles.values():
-            if handle.parent == self:
-                handle.parent = None
-                handle.key = None
+        # Handles shadowed in deeper layers are children too
+        for layer in self.handles.maps:
+            for handle in layer.values():
+                if handle.parent is self:
+                    handle.parent = None
+                    handle.key = None
 
         for map_ in self.maps.values():
-            if map_.parent == self:
+            if map_.parent is self:
                 map_.parent = None
                 map_.key = None
 
